@@ -277,6 +277,11 @@ def _exec_fsize(ctx, spec):
             return o.violations
 
         res, err = faults.run_with_fsize_limit(L, op, inspect)
+        if err is not None and err in ('child killed by signal 11', 'child killed by signal 7'):
+            # the scenario runs in a forked child precisely so that a crash of the interpreter is observed, not suffered:
+            # reading the array after the failed append touched memory that is not backed by the file
+            out.viol('interpreter-crash-after-failed-append', tag, err)
+            return out
         if err is not None:
             raise HarnessError(err)
         out.violations.extend(res)
